@@ -173,4 +173,98 @@ func extractC02(c *Ctx) {
 	c.Add("ctxAwareIncoming", "List (String × Bool)", "["+strings.Join(inc, ", ")+"]", strings.Join(srcs[:len(inc)], " "), "ServerStream adapters: "+note)
 	c.Add("ctxAwareOutgoing", "List (String × Bool)", "["+strings.Join(out, ", ")+"]", strings.Join(srcs[len(inc):], " "), "ClientConn/ClientStream adapter: "+note)
 	c.Add("ctxAware", "List (String × Bool)", "ctxAwareIncoming ++ ctxAwareOutgoing", "", "all of the above")
+	extractWSEpilogue(c)
+}
+
+// WebSocket handler epilogue (C02): in both WebSocket ServeHTTP methods the handler must close `stream.done`
+// (which lets a ReadLoop that sits in OnMessage leave it) BEFORE it waits for ReadLoop with wg.Wait().
+// wsEpilogueOrder lists, per handler, the order in which `close(<x>.done)` ("closeDone") and `wg.Wait()`
+// ("wgWait") are EXECUTED on the way out: plain statements of the function body in source order, followed by
+// the deferred ones in reverse registration order (inside a deferred func literal: source order).
+// wsEpilogueSkips lists return statements that sit between the `go` statement running ReadLoop and a
+// NON-deferred epilogue (a path on which the epilogue would not run at all).
+func extractWSEpilogue(c *Ctx) {
+	type h struct{ file, recv string }
+	var entries, skips, srcs []string
+	classify := func(e ast.Expr) string {
+		call, ok := e.(*ast.CallExpr)
+		if !ok {
+			return ""
+		}
+		if id, ok := call.Fun.(*ast.Ident); ok && id.Name == "close" && len(call.Args) == 1 {
+			if se, ok := call.Args[0].(*ast.SelectorExpr); ok && se.Sel.Name == "done" {
+				return "closeDone"
+			}
+		}
+		if se, ok := call.Fun.(*ast.SelectorExpr); ok && se.Sel.Name == "Wait" {
+			if id, ok := se.X.(*ast.Ident); ok && id.Name == "wg" {
+				return "wgWait"
+			}
+		}
+		return ""
+	}
+	stmtEvents := func(st ast.Stmt) []string {
+		if es, ok := st.(*ast.ExprStmt); ok {
+			if k := classify(es.X); k != "" {
+				return []string{k}
+			}
+		}
+		return nil
+	}
+	for _, x := range []h{{"webbridge/websocket.go", "TranscodedWebSocketBridge"}, {"webbridge/grpcweb.go", "GRPCWebSocketBridge"}} {
+		fd := c.FuncDecl(x.file, x.recv, "ServeHTTP")
+		if fd == nil || fd.Body == nil {
+			entries = append(entries, fmt.Sprintf("(%s, [\"<not found>\"])", LeanStr(x.recv+".ServeHTTP")))
+			srcs = append(srcs, x.file+":?")
+			continue
+		}
+		srcs = append(srcs, c.Pos(fd))
+		var normal []string
+		var deferred [][]string
+		var goPos, lastPlain token.Pos
+		for _, st := range fd.Body.List {
+			switch v := st.(type) {
+			case *ast.GoStmt:
+				if goPos == 0 && strings.Contains(c.Src(v), "ReadLoop") {
+					goPos = v.Pos()
+				}
+			case *ast.DeferStmt:
+				if k := classify(v.Call); k != "" {
+					deferred = append(deferred, []string{k})
+				} else if fl, ok := v.Call.Fun.(*ast.FuncLit); ok {
+					var evs []string
+					for _, inner := range fl.Body.List {
+						evs = append(evs, stmtEvents(inner)...)
+					}
+					if len(evs) > 0 {
+						deferred = append(deferred, evs)
+					}
+				}
+			default:
+				if evs := stmtEvents(st); len(evs) > 0 {
+					normal = append(normal, evs...)
+					lastPlain = st.Pos()
+				}
+			}
+		}
+		order := append([]string{}, normal...)
+		for i := len(deferred) - 1; i >= 0; i-- {
+			order = append(order, deferred[i]...)
+		}
+		entries = append(entries, fmt.Sprintf("(%s, %s)", LeanStr(x.recv+".ServeHTTP"), LeanStrList(order)))
+		if goPos != 0 && lastPlain != 0 {
+			ast.Inspect(fd.Body, func(n ast.Node) bool {
+				if _, ok := n.(*ast.FuncLit); ok {
+					return false
+				}
+				if r, ok := n.(*ast.ReturnStmt); ok && r.Pos() > goPos && r.Pos() < lastPlain {
+					skips = append(skips, c.Pos(r))
+				}
+				return true
+			})
+		}
+	}
+	c.Add("wsEpilogueOrder", "List (String × List String)", "["+strings.Join(entries, ", ")+"]", strings.Join(srcs, " "),
+		"execution order of close(stream.done) / wg.Wait() on the way out of the WebSocket handlers")
+	c.Add("wsEpilogueSkips", "List String", LeanStrList(skips), "", "returns between the start of ReadLoop and a non-deferred epilogue")
 }
